@@ -60,7 +60,25 @@ class UnpicklableBoom(Exception):
         self.lock = threading.Lock()      # cannot be pickled
 
 
-FAIL_KINDS = {"exc": Boom, "base": BaseBoom, "unpicklable": UnpicklableBoom, "value": ValueError}
+def _twin(base):
+    # two different exception classes that share their __name__ (as two packages may do)
+    return type("TaskError", (base,), {"__module__": "harness.sched_twin_" + base.__name__})
+
+
+TwinA = _twin(ValueError)
+TwinB = _twin(LookupError)
+
+
+def _restore_twin(which, msg):
+    return (TwinA if which == "A" else TwinB)(msg)
+
+
+# picklable although created dynamically
+TwinA.__reduce__ = lambda self: (_restore_twin, ("A", str(self)))
+TwinB.__reduce__ = lambda self: (_restore_twin, ("B", str(self)))
+
+FAIL_KINDS = {"exc": Boom, "base": BaseBoom, "unpicklable": UnpicklableBoom, "value": ValueError,
+              "twin_a": TwinA, "twin_b": TwinB}
 
 
 def boom(label, kind, *args):
@@ -191,6 +209,10 @@ def req_variants(n, rng=None, full=True):
             if len(S) >= 2 and full:
                 out.append({"x": [{"x": [{"k": S[0]}]}, {"x": [{"k": k} for k in S[1:]]}]})
                 out.append({"x": [{"k": k} for k in S[::-1]]})
+                # mixed nestings: a plain key next to a list, in both orders, and a deeper list
+                out.append({"x": [{"k": S[0]}, {"x": [{"k": k} for k in S[1:]]}]})
+                out.append({"x": [{"x": [{"k": k} for k in S[:-1]]}, {"k": S[-1]}]})
+                out.append({"x": [{"k": S[0]}, {"x": [{"x": [{"k": k} for k in S[1:]]}, {"k": S[0]}]}]})
     return out
 
 
